@@ -298,7 +298,7 @@ def member (isSource inRoot : String → Bool) (matcher : List String → String
 
 /-- `os.path.splitext(p)[1]` for POSIX paths -/
 def splitext (p : String) : String :=
-  let base := ((p.splitOn "/").getLast?).getD ""
+  let base := ((components p).getLast?).getD ""
   let cs := base.toList
   let lead := cs.takeWhile (· == '.')
   let rest := cs.drop lead.length
@@ -447,19 +447,34 @@ def stepNode (fs : FSMap) (file : String) (idx : Nat) (n : PNode) (l0 : Local) :
     | [] => (l.fail .index, .stay)
     | t :: ts => if t then (l, .stay) else ({ l with taken := true :: ts }, .descend)
 
-def mkPlatform (pname : String) (e : Entry) : Except Err Platform := do
-  let mut plat : Platform := { name := pname, incPaths := e.includePaths }
-  for d in e.defines do
-    let m ← macroFromDefinitionString d
-    if (plat.tbl.get m.name).isNone then plat := { plat with tbl := plat.tbl ++ [(m.name, m)] }
-  return plat
+/-- `file_platform.define(macro.name, macro)` for every `-D`, in order (the first definition of a name wins;
+the first malformed definition raises) -/
+def defineAll : List String → Platform → Except Err Platform
+  | [], plat => .ok plat
+  | d :: rest, plat =>
+    match macroFromDefinitionString d with
+    | .error er => .error er
+    | .ok m =>
+      defineAll rest (if (plat.tbl.get m.name).isNone then { plat with tbl := plat.tbl ++ [(m.name, m)] } else plat)
 
-/-- the semantics the driver runs: CBI's preprocessor model over the file system `fs` -/
+/-- `Platform(p, rootdir)`; `add_include_path` for every `-I`; `define` for every `-D` -/
+def mkPlatform (pname : String) (e : Entry) : Except Err Platform :=
+  defineAll e.defines { name := pname, incPaths := e.includePaths }
+
+/-- `Platform.find_include_file` for an `-include` file, followed by `Platform.process_include`
+(`elif file_platform.process_include(include_file)` in `find`): a forced include that is on the platform's
+once-list is not processed -/
+def findForced (fs : FSMap) (p : Platform) (inc dir : String) : Option String × Platform :=
+  match p.findInclude fs inc dir false with
+  | (some f, p2) => if p2.skip.contains f then (none, p2) else (some f, p2)
+  | (none, p2) => (none, p2)
+
+/-- the semantics the driver runs (ops `c10find`, `c08find`): CBI's preprocessor model over the file system `fs` -/
 def sem (fs : FSMap) : Sem where
   extClass := extClass
   parseAs := parseAsFS fs
   step := stepNode fs
-  findInc := fun p inc dir => p.findInclude fs inc dir false
+  findInc := findForced fs
   mkPlat := mkPlatform
 
 /-- default fuel of the driver: far above any recursion the implementation survives -/
